@@ -498,8 +498,13 @@ Section Trav2.
     assert (HP : forall c, find_obj (objs (r_cl s1)) (l_id l) = Some c -> can_apply sc (c_owner c) = true).
     { rewrite P1, EI. intros c Hc. destruct (proj1 PS eq_refl) as [A|[_ A]]; [apply can_apply_adopt_all; exact A|].
       rewrite Hc in A. exact A. }
-    pose proof (w_kubectl_apply s1 l HP I1) as K.
-    destruct (kubectl_apply sc s1 l) as [s2 r]. cbn [fst] in K.
+    pose proof (mutate_cl sc s1 l) as M1. pose proof (mutate_tr sc s1 l) as M4.
+    destruct (mutate sc s1 l) as [sm okm]. cbn [fst] in M1, M4.
+    assert (Im : Inv sm) by (eapply Inv_same; eassumption).
+    destruct okm; cbn [negb]; [|apply SK; exact Im].
+    rewrite <- M1 in HP.
+    pose proof (w_kubectl_apply sm l HP Im) as K.
+    destruct (kubectl_apply sc sm l) as [s2 r]. cbn [fst] in K.
     destruct r; apply SK; exact K.
   Qed.
 
